@@ -1,11 +1,14 @@
 #!/usr/bin/env python3
-"""run_benign.py [--own] — behaviour-preserving edits (/verif/benign/<PROP>/*.patch) must NOT raise an alarm in ANY
+"""run_benign.py [--own] [--props=C01,C05] — behaviour-preserving edits (/verif/benign/<PROP>/*.patch) must NOT raise an alarm in ANY
 check: each patch is applied to a scratch copy and all 20 checks run against it (--own: only the check of the
 directory the patch lives in)."""
 import glob, os, subprocess, sys
 V = os.path.dirname(os.path.dirname(os.path.abspath(__file__)))
 ALL = ["C%02d" % i for i in range(1, 21)]
 own = "--own" in sys.argv
+sel = [a.split("=", 1)[1].split(",") for a in sys.argv if a.startswith("--props=")]
+if sel:
+    ALL = sel[0]
 bad = 0
 for pat in sorted(glob.glob(os.path.join(V, "benign", "*", "*.patch"))):
     p = os.path.basename(os.path.dirname(pat))
